@@ -349,6 +349,19 @@ impl ClusterProbe {
             .await;
     }
 
+    /// A partial topology refresh (`ClusterState::new_with_updated_topology`): only
+    /// the peer list is replaced, schema and tablets are carried over.
+    pub async fn refresh_topology(&mut self, peers: &[PeerDesc]) {
+        self.state = self
+            .state
+            .new_with_updated_topology(
+                peers.iter().map(make_peer).collect(),
+                &self.node_config,
+                self.host_filter.as_deref(),
+            )
+            .await;
+    }
+
     /// Feeds one tablet as it arrives in a response's custom payload.
     /// `Ok(false)`: no tablet entry in the payload; `Err`: the payload was refused.
     pub fn add_tablet_from_payload(
